@@ -71,15 +71,11 @@ def check_typestate(ctx, tu, info):
                     if p[0] == vroot:
                         sinks.append((n, 'dereferenced for its %s link' % f.decl(n)['name']))
             if f.name == 'remove':
-                for r in f.return_nodes():
-                    ks = f.kids(r)
-                    v = f.strip_all_casts(ks[0]) if ks else None
+                for r, v in f.result_sites():       # `return true`, or `result = true` with a result variable
                     if v and f.nodes[v]['cls'] == 'CXXBoolLiteralExpr' and f.nodes[v].get('value'):
                         sinks.append((r, 'success is reported'))
             if f.name == 'ownsHandle':
-                for r in f.return_nodes():
-                    ks = f.kids(r)
-                    v = f.strip_all_casts(ks[0]) if ks else None
+                for r, v in f.result_sites():
                     if v and not (f.nodes[v]['cls'] == 'CXXBoolLiteralExpr' and not f.nodes[v].get('value')):
                         sinks.append((r, 'ownership may be reported'))
             for (n, what) in sinks:
